@@ -169,8 +169,8 @@ def missed(manifest, hits, runs_by_spec):
     return out
 
 
-def cfg_suffix(bad_specs, all_specs):
-    """'' when every configuration misses the flow, otherwise which ones do (stable order)"""
+def cfg_class(bad_specs, all_specs):
+    """'' when every configuration misses the flow, otherwise the class of configurations that do (stable names)"""
     if set(bad_specs) >= set(all_specs):
         return ""
     od = set("od=1" in s for s in bad_specs)
@@ -184,10 +184,20 @@ def cfg_suffix(bad_specs, all_specs):
         parts.append("eager")
     if fs == {False}:
         parts.append("nofs")
-    return "@" + "+".join(parts) if parts else "@some"
+    return ("+".join(parts) + "-only") if parts else "some-configs"
 
 
-def shrink(work, misses, specs, timeout=240, max_rounds=4, module="p1"):
+def miss_key(min_key, bad_specs, all_specs):
+    """finding key of a minimised miss: [<config class>[-combo]:]<atom keys joined by +>.  Misses that need a combination of
+    atoms AND occur only in one configuration class get the -combo infix (field-sensitive mode has an open-ended family
+    of those, listed under one wildcard)."""
+    c = cfg_class(bad_specs, all_specs)
+    if not c:
+        return min_key
+    return c + ("-combo:" if "+" in min_key else ":") + min_key
+
+
+def shrink(work, misses, specs, timeout=240, max_rounds=7, module="p1"):
     """Batch delta-debugging.  misses: list of (scenario, bad_specs).  For every missed scenario find a minimal sub-chain
     (src, atoms, wrap) that is still missed (natively observed, not reported in one of the scenario's bad configurations).
     Every round generates ONE program holding all candidate reductions of all open scenarios and runs the tool once per
@@ -261,8 +271,9 @@ def shrink(work, misses, specs, timeout=240, max_rounds=4, module="p1"):
                     if len(st["cur"]["atoms"]) == 1 and st["cur"]["src"] == "direct" and st["cur"]["wrap"] == "direct":
                         st["done"] = True
         for k, st in enumerate(state):
-            if not st["done"] and k not in progressed:
+            if not st["done"] and k not in progressed and rnd >= 2:
                 st["done"] = True     # no smaller candidate still fails: current is 1-minimal
+        # (round 1 only tries the atoms in isolation; when none of them fails alone the drop-one rounds start)
     out = []
     for st in state:
         cur = st["cur"]
